@@ -10,10 +10,12 @@ import (
 	"fmt"
 	"io"
 	"os"
+	"os/exec"
 	"path/filepath"
 	"sort"
 	"strconv"
 	"strings"
+	"syscall"
 	"time"
 
 	"github.com/nuetzliches/hookaido/internal/config"
@@ -411,6 +413,7 @@ func C20(c *vlib.Ctx) {
 		}
 	}
 	c20Confinement(c, root, &row)
+	c20PathSpellings(c, root, &row)
 }
 
 // c20CrossCheckSpec compares the transcribed table with the flag headings of spec.md.
@@ -442,6 +445,152 @@ func c20CrossCheckSpec(c *vlib.Ctx) {
 		}
 	}
 	c.Set("spec_md_tools_cross_checked", checked)
+}
+
+// c20Spellings: other spellings of a configured path. None of them is
+// string-equal to it; on this (case-sensitive) file system the case variants,
+// suffix variants and the directory itself name different files.
+func c20Spellings(p string) map[string]string {
+	dir, base := filepath.Dir(p), filepath.Base(p)
+	swap := func(s string) string {
+		b := []byte(s)
+		for i, ch := range b {
+			switch {
+			case ch >= 'a' && ch <= 'z':
+				b[i] = ch - 32
+			case ch >= 'A' && ch <= 'Z':
+				b[i] = ch + 32
+			}
+		}
+		return string(b)
+	}
+	return map[string]string{
+		"upper_base":   filepath.Join(dir, strings.ToUpper(base)),
+		"lower_base":   filepath.Join(dir, strings.ToLower(base)),
+		"swapcase":     filepath.Join(dir, swap(base)),
+		"upper_dir":    filepath.Join(filepath.Dir(dir), strings.ToUpper(filepath.Base(dir)), base),
+		"suffix_tilde": p + "~",
+		"suffix_bak":   p + ".bak",
+		"suffix_space": p + " x",
+		"prefix_dot":   filepath.Join(dir, "."+base),
+		"base_only":    base,
+		"nul_suffix":   p + "\x00.conf",
+		"dir_itself":   dir,
+		"child":        filepath.Join(p, "child"),
+		"unicode_fold": strings.Replace(p, "k", "\u212a", 1), // KELVIN SIGN folds to k
+	}
+}
+
+// c20PathSpellings: config-writing and process-controlling tools called with
+// other spellings of the configured path / pid file. Nothing but the configured
+// config file may change, no file may appear, the decoy pid file (which names
+// a live decoy process) must stay and the decoy must stay alive.
+func c20PathSpellings(c *vlib.Ctx, root string, row *int) {
+	valid := c20Config + "/extra { pull { path /pull/extra } }\n"
+	type call struct {
+		tool string
+		args func(p string) map[string]any
+		pid  bool
+	}
+	calls := []call{
+		{"config_apply", func(p string) map[string]any {
+			return map[string]any{"path": p, "content": valid, "mode": "write_only"}
+		}, false},
+		{"management_endpoint_upsert", func(p string) map[string]any {
+			return map[string]any{"path": p, "application": "app1", "endpoint_name": "ep2", "route": "/spare", "reason": "x"}
+		}, false},
+		{"management_endpoint_delete", func(p string) map[string]any {
+			return map[string]any{"path": p, "application": "app1", "endpoint_name": "ep1", "reason": "x"}
+		}, false},
+		{"instance_stop", func(p string) map[string]any { return map[string]any{"pid_file": p, "timeout": "200ms"} }, true},
+		{"instance_reload", func(p string) map[string]any { return map[string]any{"pid_file": p, "timeout": "200ms"} }, true},
+	}
+	for _, k := range calls {
+		*row++
+		f, err := c20NewFixture(root, *row)
+		if err != nil {
+			c.Inconclusive(err.Error())
+			return
+		}
+		conf := f.Cfg
+		if k.pid {
+			conf = f.PID
+		}
+		names := []string{}
+		sp := c20Spellings(conf)
+		for n := range sp {
+			names = append(names, n)
+		}
+		sort.Strings(names)
+		for _, n := range names {
+			alt := sp[n]
+			if alt == conf {
+				continue // e.g. lower_base of an all-lower-case name
+			}
+			// a decoy process and, for pid tools, a decoy pid file under the alternative spelling
+			var decoy *exec.Cmd
+			decoyFile := ""
+			if k.pid {
+				decoy = exec.Command("sleep", "30")
+				if err := decoy.Start(); err != nil {
+					c.Inconclusive("C20 decoy: " + err.Error())
+					return
+				}
+				if !strings.ContainsRune(alt, 0) && n != "dir_itself" && n != "child" && filepath.IsAbs(alt) {
+					full := alt
+					_ = os.MkdirAll(filepath.Dir(full), 0o755)
+					if os.WriteFile(full, []byte(fmt.Sprintf("%d\n", decoy.Process.Pid)), 0o644) == nil {
+						decoyFile = full
+					}
+				}
+			}
+			before := c20Snapshot(filepath.Dir(f.Dir))
+			ro, recs, err := c20Call(f, "admin", true, true, "alice", "tools/call", map[string]any{"name": k.tool, "arguments": k.args(alt)})
+			after := c20Snapshot(filepath.Dir(f.Dir))
+			c.Count("evaluations", 1)
+			c.Distinct("nontrivial", "spelling:"+k.tool+":"+n)
+			if err != nil {
+				c.Inconclusive("C20 spelling: " + err.Error())
+				if decoy != nil {
+					_ = decoy.Process.Kill()
+					_, _ = decoy.Process.Wait()
+				}
+				continue
+			}
+			text := ""
+			if len(ro.Result.Content) > 0 {
+				text = ro.Result.Content[0].Text
+			}
+			wit := map[string]any{"tool": k.tool, "spelling": n, "configured": conf, "supplied": alt, "is_error": ro.Result.IsError, "text": text[:minInt(300, len(text))], "fs_diff": fsDiff(before, after), "audit": recs}
+			rel, _ := filepath.Rel(filepath.Dir(f.Dir), f.Cfg)
+			for _, d := range fsDiff(before, after) {
+				if d == "changed:"+rel {
+					// only legal when the spelling is accepted as the configured file itself
+					c.Violation(vlib.Signature{"class": "config_written_through_other_spelling", "tool": k.tool, "spelling": n}, fmt.Sprintf("%s with path %q (configured %q) rewrote the config file", k.tool, alt, conf), wit)
+					continue
+				}
+				c.Violation(vlib.Signature{"class": "touched_other_file", "tool": k.tool, "spelling": n}, fmt.Sprintf("%s with %q (configured %q) changed the file system: %s", k.tool, alt, conf, d), wit)
+			}
+			if !ro.Result.IsError {
+				c.Violation(vlib.Signature{"class": "foreign_path_accepted", "tool": k.tool, "spelling": n}, fmt.Sprintf("%s accepted %q although the configured path is %q", k.tool, alt, conf), wit)
+			}
+			if decoy != nil {
+				if err := decoy.Process.Signal(syscall.Signal(0)); err != nil {
+					c.Violation(vlib.Signature{"class": "foreign_process_signalled", "tool": k.tool, "spelling": n}, fmt.Sprintf("%s with pid_file %q terminated the process named in that foreign file", k.tool, alt), wit)
+				}
+				_ = decoy.Process.Kill()
+				_, _ = decoy.Process.Wait()
+			}
+			if len(recs) != 1 {
+				c.Violation(vlib.Signature{"class": "audit_record_count", "tool": k.tool, "case": "spelling:" + n}, fmt.Sprintf("%d audit records for one mutating call", len(recs)), wit)
+			}
+			if decoyFile != "" {
+				_ = os.Remove(decoyFile)
+			}
+		}
+		_ = os.RemoveAll(f.Dir)
+		_ = os.RemoveAll(filepath.Join(filepath.Dir(f.Dir), strings.ToUpper(filepath.Base(f.Dir))))
+	}
 }
 
 func c20Confinement(c *vlib.Ctx, root string, row *int) {
